@@ -348,6 +348,7 @@ impl<T> NCReadStream<T> {
         let (lock, cv) = &*self.q;
         // TODO: attach tags.
         let ret = lock.lock().unwrap().pop_front().map(|v| (v, Vec::new()));
+        circular_buffer::note_activity(ret.is_some() as usize);
         #[cfg(feature = "verif_hooks")]
         crate::verif::moved(Arc::as_ptr(&self.q) as *const () as usize, ret.is_some() as usize);
         cv.notify_all();
@@ -377,6 +378,7 @@ impl<T> NCWriteStream<T> {
         let (lock, cv) = &*self.q;
         // TODO: attach tags.
         lock.lock().unwrap().push_back(val);
+        circular_buffer::note_activity(1);
         #[cfg(feature = "verif_hooks")]
         crate::verif::moved(Arc::as_ptr(&self.q) as *const () as usize, 1);
         cv.notify_all();
